@@ -16,6 +16,7 @@ CONSTANTS
   FDataSet = {0, 2, 99}
   LenSet = {5}
   CachedSet = {TRUE, FALSE}
+  DmgSet = {TRUE, FALSE}
   KindSet = {"ok", "nonZero", "error"}
   Modes = {"direct"}
   DeliverAnyTime = TRUE
